@@ -205,6 +205,38 @@ fn mutants(problem: &PProblem, solution: &Value) -> Vec<Mutant> {
                 p.vehicles[vi].limits = Some(merged);
                 out.push(mk("limit-breach", &["C01:max-distance", "C01:max-duration", "C01:tour-size"], format!("tour {ti} {which}"), &p, solution.clone()));
             }
+            // recharge limit lowered below ONE stretch of the tour (start -> station, station -> station, station -> end), the
+            // other stretches still fit: the breach is on that stretch alone (problem side)
+            let shift_idx = tour["shiftIndex"].as_u64().unwrap_or(0) as usize;
+            if let Some((_, stations)) = problem.vehicles[vi].shifts.get(shift_idx).and_then(|s| s.recharge.clone()) {
+                let mut stretches: Vec<(f64, bool)> = vec![];
+                let mut from = 0.;
+                let stops = tour["stops"].as_array().cloned().unwrap_or_default();
+                for st in &stops {
+                    let at = st["distance"].as_f64().unwrap_or(0.);
+                    let is_station = st["activities"].as_array().is_some_and(|a| a.iter().any(|x| x["type"] == "recharge"));
+                    if is_station {
+                        stretches.push((at - from, true));
+                        from = at;
+                    }
+                }
+                stretches.push((stops.last().and_then(|st| st["distance"].as_f64()).unwrap_or(0.) - from, false));
+                for (k, (len, into_station)) in stretches.iter().enumerate() {
+                    let limit = len - 1.;
+                    if limit < 1. || stretches.iter().enumerate().any(|(j, (other, _))| j != k && *other > limit) {
+                        continue;
+                    }
+                    let mut p = problem.clone();
+                    p.vehicles[vi].shifts[shift_idx].recharge = Some((limit, stations.clone()));
+                    out.push(mk(
+                        "limit-breach",
+                        &["C01:recharge-distance"],
+                        format!("tour {ti} recharge limit {limit} below stretch {k}{}", if *into_station { " (which ends at a station)" } else { "" }),
+                        &p,
+                        solution.clone(),
+                    ));
+                }
+            }
             // capacity lowered below the peak load of the tour (problem side): load above capacity
             let peak: i64 = tour["stops"].as_array().map_or(0, |s| s.iter().filter_map(|st| st["load"][0].as_i64()).max().unwrap_or(0));
             if peak >= 1 {
